@@ -63,6 +63,49 @@ def deciding_tests(g, site, var=None, facts=None):
     return out
 
 
+def residual(e, var, facts):
+    """what is left of a test once the facts have settled what they can: True / False, or the expression still to be evaluated
+    (`rtype == "PropertyGroups" or (keep is not None and key in keep)` under rtype = 'Types', keep = None  ->  False)"""
+    v = tv(e, var, facts)
+    if v is not None:
+        return v
+    if isinstance(e, ast.UnaryOp) and isinstance(e.op, ast.Not):
+        r = residual(e.operand, var, facts)
+        return (not r) if isinstance(r, bool) else ast.UnaryOp(op=ast.Not(), operand=r)
+    if isinstance(e, ast.BoolOp):
+        is_and = isinstance(e.op, ast.And)
+        parts = []
+        for x in e.values:
+            r = residual(x, var, facts)
+            if isinstance(r, bool):
+                if r != is_and:
+                    return r  # False in a conjunction / True in a disjunction settles it
+                continue
+            parts.append(r)
+        if not parts:
+            return is_and
+        return parts[0] if len(parts) == 1 else ast.BoolOp(op=e.op, values=parts)
+    return e
+
+
+def actual_or_default(f0, cc, prm):
+    """the expression a call binds to parameter `prm` of f0: the argument, else the default of the signature; None when neither"""
+    off = 1 if f0.kind in ("method", "classmethod") else 0
+    slot = f0.params.index(prm) - off
+    for k in cc.keywords:
+        if k.arg == prm:
+            return k.value
+    if 0 <= slot < len(cc.args) and not any(isinstance(a, ast.Starred) for a in cc.args[: slot + 1]):
+        return cc.args[slot]
+    if any(isinstance(a, ast.Starred) for a in cc.args) or any(k.arg is None for k in cc.keywords):
+        return None
+    a = f0.node.args
+    pos = a.posonlyargs + a.args
+    d = dict(zip([x.arg for x in pos][::-1], a.defaults[::-1]))
+    d.update({x.arg: v for x, v in zip(a.kwonlyargs, a.kw_defaults) if v is not None})
+    return d.get(prm)
+
+
 def names_in(e, fn_node, defs) -> set:
     return {x.id for x in ast.walk(expanded(e, fn_node, defs)) if isinstance(x, ast.Name)}
 
@@ -263,6 +306,37 @@ def rule_typesweep(ctx) -> RuleResult:
             key_names = ({x.id for x in ast.walk(key) if isinstance(x, ast.Name)} | names_in(key, node, defs)) - me
             ev = [t for t in tests if key_names & names_in(t.ast, node, defs)]
             if ev:
+                # the test may consult the identifier only when ANOTHER parameter allows it (`keep is not None and key in keep`):
+                # then it is evidence only for the callers whose argument (or the default they leave) keeps that part alive
+                own = set(f0.params) - me - {q} - key_names
+                gate = {r for t in ev for r in names_in(t.ast, node, defs) & own}
+                if not gate:
+                    return [("ok", f0, where, f"'{SHARED}' reaches the removal: decided by a test on the identifier (line {ev[0].lineno})")]
+                out, base = [], {"const:" + q: SHARED} if q else {}
+                for caller, cc in call_sites(f0):
+                    a2 = passed(f0, cc, q) if q else ast.Constant(SHARED)
+                    if a2 is None or (q and caller.node is node and isinstance(a2, ast.Name) and a2.id == q):
+                        continue
+                    if all(st == "no" for st, *_ in trace(caller, cc, None, a2, depth + 1)):
+                        continue  # this caller never has 'Types' here
+                    facts = dict(base)
+                    rebound = {x.id for x in ast.walk(node) if isinstance(x, ast.Name) and isinstance(x.ctx, (ast.Store, ast.Del))}
+                    for r in gate - rebound:  # (a parameter the function re-binds, `if keep is None: keep = ...`, is not what the caller passed)
+                        v = actual_or_default(f0, cc, r)
+                        if isinstance(v, ast.Constant) and v.value is None:
+                            facts["notnone:" + r] = False
+                            facts["truthy:" + r] = False
+                        elif isinstance(v, ast.Constant) and isinstance(v.value, bool):
+                            facts["truthy:" + r] = v.value
+                    live = [t for t in ev if not isinstance(rs := residual(expanded(t.ast, node, defs), q, facts), bool)
+                            and key_names & {x.id for x in ast.walk(rs) if isinstance(x, ast.Name)}]
+                    cwhere = f"{caller.module.relpath}:{cc.lineno}"
+                    if live:
+                        out.append(("ok", f0, where, f"'{SHARED}' reaches the removal from {caller.qualname}: decided by a test on the identifier (line {live[0].lineno}) that its arguments keep alive"))
+                    else:
+                        out.append(("bad", f0, where, f"'{SHARED}' reaches the removal from {caller.qualname} ({cwhere}): what it passes for {sorted(gate)} switches the test on the identifier off"))
+                if out:
+                    return out
                 return [("ok", f0, where, f"'{SHARED}' reaches the removal: decided by a test on the identifier (line {ev[0].lineno})")]
             if _filter_evidence(node, call, key_names, defs):
                 return [("ok", f0, where, f"'{SHARED}' reaches the removal: the identifiers were filtered by a membership test")]
